@@ -188,7 +188,7 @@ def gen_reply_case(rnd, prev_key16):
     key16 = bytes(bytearray(rnd.getrandbits(8) for _ in range(16)))
     good = digest(key16)
     kind = rnd.choice(["good", "good", "good", "status", "no_upgrade", "bad_upgrade", "no_accept", "wrong_accept", "accept_other_key", "accept_prev_key",
-                       "accept_case", "accept_trunc", "accept_extra", "accept_8bit", "upgrade_8bit", "big_terminated", "big_unterminated", "garbage", "smuggled"])
+                       "accept_case", "accept_trunc", "accept_extra", "accept_8bit", "upgrade_8bit", "big_terminated", "big_unterminated", "garbage", "smuggled", "dup_relevant"])
     status = b"101"
     headers = [(b"Upgrade", rnd.choice([b"websocket", b"WebSocket", b"WEBSOCKET"])), (b"Connection", b"Upgrade"), (b"Sec-WebSocket-Accept", good),
                (b"Server", b"unit test"), (b"X-Pad", b"a, b;c=d")]
@@ -207,7 +207,8 @@ def gen_reply_case(rnd, prev_key16):
     if rnd.random() < 0.2:
         headers.append((b"X-Dup", b"1"))
         headers.append((b"X-Dup", b"2"))
-    reason = rnd.choice([b"Switching Protocols", b"OK", b"Web Socket Protocol Handshake", b"x", b"{reason} {0} %s", b"{"])
+    # (the reason phrase may be empty, with or without the blank in front of it: RFC 7230 3.1.2)
+    reason = rnd.choice([b"Switching Protocols", b"OK", b"Web Socket Protocol Handshake", b"x", b"{reason} {0} %s", b"{", b"", b"", None])
     if kind == "status":
         status = str(rnd.choice([100, 102, 200, 201, 204, 301, 302, 400, 401, 403, 404, 426, 500, 503, 599, 110, 111, 191, 1010 % 1000])).encode()
         if status == b"101":
@@ -221,6 +222,22 @@ def gen_reply_case(rnd, prev_key16):
         expect = "rejected"
     elif kind == "no_accept":
         headers = [h for h in headers if h[0] != b"Sec-WebSocket-Accept"]
+        expect = "rejected"
+    elif kind == "dup_relevant":
+        # a handshake header sent twice, spelled in different letter case, one value right and one wrong: repeated headers are
+        # ONE header whose value is the comma-joined list (RFC 7230 3.2.2) -- neither "the first" nor "the last" -- so this
+        # reply is not a correct one
+        victim = rnd.choice([b"Upgrade", b"Sec-WebSocket-Accept"])
+        wrong = rnd.choice([b"h2c", b"websockets"]) if victim == b"Upgrade" else digest(bytes(bytearray(rnd.getrandbits(8) for _ in range(16))))
+        right = [v for n, v in headers if n == victim][0]
+        rest = [(n, v) for n, v in headers if n != victim]
+        pair = [(victim, wrong), (victim.upper() if rnd.random() < 0.7 else victim.lower(), right)]
+        if rnd.random() < 0.5:
+            pair = [(pair[1][0], wrong), (pair[0][0], right)]
+        if rnd.random() < 0.5:
+            pair.reverse()
+        k = rnd.randrange(0, len(rest) + 1)
+        headers = rest[:k] + [pair[0]] + rest[k:] + [pair[1]]
         expect = "rejected"
     elif kind == "smuggled":
         # a required header is missing; its text appears only INSIDE the value of another header, behind a bare LF, CR or
@@ -260,7 +277,7 @@ def gen_reply_case(rnd, prev_key16):
             bad = good[:-2] + b"A="
         headers = [(n, bad) if n == b"Sec-WebSocket-Accept" else (n, v) for n, v in headers]
         expect = "rejected"
-    status_line = b"HTTP/1.1 " + status + (b" " + reason if reason else b"")
+    status_line = b"HTTP/1.1 " + status + (b"" if reason is None else b" " + reason)
     fold_ok = True
     reply = render_reply(rnd, status_line, headers, fold_ok)
     big_cut = None
